@@ -20,6 +20,14 @@ def make_cases(rng, tier, n):
             c["timeout"] = 240
             big = [b"huge.bin", b"hugedir/sub/huge1.bin"]
             stats["huge_objects"] = stats.get("huge_objects", 0) + 1
+        dups = []
+        if i % 40 == 18:
+            # many entries with IDENTICAL content in one directory (they share one object): most stay correct links, some are replaced
+            # by the user's own files
+            c["init"] += [("dir", b"dupdir")] + [("file", b"dupdir/d%02d.bin" % j, "g:4242:%d" % (300 + i)) for j in range(24)]
+            c["stages"].append((b"dupdir.yaml", dict(cmd=b"", wd=b".", out=[(b"dupdir", "d")])))
+            dups = [b"dupdir/d%02d.bin" % j for j in range(24)]
+            stats["many_duplicates"] = stats.get("many_duplicates", 0) + 1
         arts = s1eval.artifacts(c)
         files = [e for e in c["init"] if e[0] == "file" and any(e[1] == p or e[1].startswith(p + b"/") for p, fl, sp in arts)]
         dirs_in = [e for e in c["init"] if e[0] == "dir" and any(e[1].startswith(p + b"/") for p, fl, sp in arts if "d" in fl and "r" not in fl)]
@@ -27,6 +35,8 @@ def make_cases(rng, tier, n):
         chosen = {}
         for f in files:
             st = rng.choice(STATES) if rng.random() < 0.5 else "keep"
+            if f[1] in dups:
+                st = "different" if dups.index(f[1]) in (5, 17, 23) else ("dir_in_way" if dups.index(f[1]) == 11 else "keep")
             if f[1] in big:
                 st = ["different", "foreign", "dangling", "proper_prefix"][(i // 40 + big.index(f[1])) % 4]
             if any(f[1].startswith(d + b"/") for d in chosen if chosen[d] in ("file_in_way_dir",)):
@@ -88,7 +98,7 @@ def make_cases(rng, tier, n):
             chosen[p] = "art_root_" + how
             stats["state_art_root_" + how] = stats.get("state_art_root_" + how, 0) + 1
         c["pre_index"] = len(ops)
-        c["strategy"] = rng.choice("lc") if not big else "c"
+        c["strategy"] = rng.choice("lc") if not (big or dups) else "c"
         ops.append(("checkout", c["strategy"], False, []))
         c["ops"] = ops
         c["chosen"] = {k.hex(): v for k, v in chosen.items()}
